@@ -1,12 +1,69 @@
 import HcipyVerif.Model.Proto
+import HcipyVerif.Model.Detector
 
-/-! Line-protocol front end of the C17 model (stub: not built yet). -/
+/-! Line-protocol front end of the C17 model (detectors).
+
+```
+new noiseless|old <s> <dims>            one detector per `new`; dims = coarse shape, slowest first
+new noisy <s> <dims> <dark> <flat|->    NoisyDetector, photon noise off, read noise 0
+int <power-list> <dt> <weight>          -> ok | err value
+read                                    -> ok <image-list> | err attribute
+```
+-/
 namespace HcipyVerif.Driver.C17
+open HcipyVerif.Proto HcipyVerif.Detector HcipyVerif.Binning
+
+inductive Kind where | noiseless | old | noisy
+deriving BEq
 
 structure St where
-  dummy : Unit := ()
+  kind : Kind := .noiseless
+  geom : Geom := { dims := [] }
+  st : Detector.St Rat := {}
+  nst : NSt Rat := {}
+  noise : Noise Rat := { dark := 0, flat := [], sigma := 0, draws := fun _ => [] }
+
+def showObs : Obs Rat → String
+  | .done => "ok"
+  | .refused => "err value"
+  | .image img => "ok " ++ showRatList img
+  | .failed => "err attribute"
+
+def apply (st : St) (op : Op Rat) : St × String :=
+  match st.kind with
+  | .noiseless => let r := Detector.step st.geom st.st op; ({ st with st := r.1 }, showObs r.2)
+  | .old => let r := Detector.stepOld st.geom st.st op; ({ st with st := r.1 }, showObs r.2)
+  | .noisy => let r := Detector.nStep st.geom st.noise st.nst op; ({ st with nst := r.1 }, showObs r.2)
 
 def step (st : St) : List String → St × String
+  | ["reset"] => ({}, "ok")
+  | ["new", kind, s, dims] =>
+    match parseNat? s, parseNatList? dims with
+    | some s, some dims =>
+      if s = 0 then (st, "bad-op") else
+      match kind with
+      | "noiseless" => ({ kind := .noiseless, geom := { dims := dims, s := s } }, "ok")
+      | "old" => ({ kind := .old, geom := { dims := dims, s := s } }, "ok")
+      | _ => (st, "bad-op")
+    | _, _ => (st, "bad-op")
+  | ["new", "noisy", s, dims, dark, flat] =>
+    match parseNat? s, parseNatList? dims, parseRat? dark with
+    | some s, some dims, some dark =>
+      if s = 0 then (st, "bad-op") else
+      let n := size dims
+      let flat? := if flat == "-" then some (List.replicate n (1 : Rat)) else parseRatList? flat
+      match flat? with
+      | some fl =>
+        if fl.length ≠ n then (st, "bad-op") else
+        ({ kind := .noisy, geom := { dims := dims, s := s },
+           noise := { dark := dark, flat := fl, sigma := 0, draws := fun _ => List.replicate n 0 } }, "ok")
+      | none => (st, "bad-op")
+    | _, _, _ => (st, "bad-op")
+  | ["int", p, dt, w] =>
+    match parseRatList? p, parseRat? dt, parseRat? w with
+    | some p, some dt, some w => apply st (.integrate p dt w)
+    | _, _, _ => (st, "bad-op")
+  | ["read"] => apply st .readOut
   | _ => (st, "bad-op")
 
 end HcipyVerif.Driver.C17
